@@ -287,3 +287,13 @@ def r7(ctx, R):
     inner = [l for l in walk_no_nested(fn) if isinstance(l, ast.While) and ast.unparse(l.test) == 'not self.S.status.done']
     ok = len(inner) == 1 and len(inner[0].body) == 1 and ast.unparse(inner[0].body[0]) == 'self.pfasst(comm_active, comm_active.size)'
     R.check(ok, 'controller_MPI.run :: while not done: self.pfasst(comm_active, comm_active.size)', f'{rel}:{cn}.run', 'iterate until this rank is done', [ast.unparse(l)[:80] for l in inner])
+
+
+@rule('C06', 'C06.R8', 'value chain inside a block: a step takes the end value of its predecessor until the predecessor (and all before it) are done - receive guard, cumulative done chain, copy on receive (shared with C01.R4 / C07.R8)', floor=20)
+def r8(ctx, R):
+    """`each accepted step starts from exactly the end value of the previous accepted step` also holds INSIDE a block only if
+    (a) the receive copies uend and refreshes f(u0) under `not first and not prev_done`, and (b) prev_done is cumulative
+    (done := done and prev_done, in slot order): otherwise a step stops listening while its predecessor still changes."""
+    from . import c01, c07
+    c01.r4(ctx, R)
+    c07.r8(ctx, R)
